@@ -127,6 +127,49 @@ theorem c14_cleanup_counterexample_old :
   intro h
   simp [cleanupSeqOld, WaitsUnder, List.range, List.range.loop] at h
 
+/-- **C14 (... and whatever the commands not yet started hold).**  The ends held at the failure may also belong to the
+    commands that were never started -- the pipeline's own `stdout` file (a caller-made pipe, say) lives in the last
+    `Exec`, a shared `stderr` file in every one: the `return` drops them (the loop's iterator) before it drops `ret`.
+    Every wait of the cleanup still happens with nothing held. -/
+theorem c14_cleanup_waits_with_nothing_held_unstarted (pending : List End) (owned : List (List End)) (det : Nat → Bool)
+    (h0 : Held) (hcov : ∀ e, h0 e ≠ none → e ∈ pending ∨ ∃ es ∈ owned, e ∈ es) :
+    WaitsUnder (fun h => ∀ e, h e = none) h0 (cleanupSeqP pending owned det) := by
+  unfold cleanupSeqP
+  rw [waitsUnder_append, waitsUnder_append]
+  refine ⟨⟨waitsUnder_noWait _ _ _ ?_, waitsUnder_noWait _ _ _ ?_⟩, ?_⟩
+  · intro a ha
+    simp only [releaseAll, List.mem_flatMap, List.mem_map] at ha
+    obtain ⟨es, _, e, _, rfl⟩ := ha
+    simp
+  · intro a ha
+    simp only [List.mem_map] at ha
+    obtain ⟨e, _, rfl⟩ := ha
+    simp
+  · have hnone : heldAfter h0 (releaseAll owned ++ pending.map Act.close) = fun _ => none := by
+      rw [heldAfter_append, heldAfter_releaseAll, heldAfter_closes]
+      funext e
+      by_cases hp : e ∈ pending
+      · simp [hp]
+      · by_cases hm : ∃ es ∈ owned, e ∈ es
+        · simp [hm]
+        · simp only [hp, hm, if_false]
+          cases hh : h0 e with
+          | none => rfl
+          | some b =>
+            rcases hcov e (by simp [hh]) with h | h
+            · exact absurd h hp
+            · exact absurd h hm
+    rw [hnone]
+    exact waitsUnder_waitAll_empty det owned.length
+
+/-- a variant that keeps the pipeline's `stdout` file in a local which outlives `ret` waits for command 0 while the parent
+    still holds that end (the write end of a caller-made pipe whose read end is command 0's stdin: no end-of-file, no return) -/
+theorem c14_cleanup_counterexample_late_local :
+    ¬ WaitsUnder (fun h => ∀ e, h e = none) (fun e => if e = ⟨9, .w⟩ then some true else none)
+        (cleanupSeqPLate [⟨9, .w⟩] [[]] (fun _ => false)) := by
+  intro h
+  simp [cleanupSeqPLate, releaseAll, waitAll, WaitsUnder, List.range, List.range.loop] at h
+
 /-! Non-vacuity (tests, labelled as tests): a concrete failing pipeline and what the model says -/
 example : (run { n := 3, det := fun _ => false, sin := .pipe, sout := .inherit, serr := .inherit, errTo := false,
                  failAt := some 2 } .join).filterMap waitIdx = [0, 1] := by decide
